@@ -350,11 +350,13 @@ def _tsv(src, n, scratch, kind):
                     if ln.startswith("# ") and "\t" in ln][0][2:].split("\t")
                 got = np.array([[float(x) for x in r] for r in rows]).reshape(
                     len(rows), len(feats))
-                if hdr != sorted(feats):
+                # the order of the columns is the tool's choice
+                if sorted(hdr) != sorted(feats):
                     vs.append(violation(
                         "dclab.rtdc_dataset.export:Export.tsv",
                         "wrong-header", case, f"{hdr}"))
-                for j, f in enumerate(sorted(feats)):
+                    continue
+                for j, f in enumerate(hdr):
                     exp = np.asarray(src.ev[f][src.idx[sel]], float)
                     col = got[:, j] if len(rows) else np.array([])
                     ok = len(col) == len(exp) and all(
@@ -377,6 +379,76 @@ def _tsv(src, n, scratch, kind):
     if p.exists():
         p.unlink()
     return vs
+
+
+def read_tsv(p):
+    """(header names, 2-D float array) of a .tsv written by dclab."""
+    lines = p.read_text(encoding="utf-8-sig").splitlines()
+    hdr = [ln for ln in lines if ln.startswith("# ") and "\t" in ln][
+        0][2:].split("\t")
+    rows = [ln for ln in lines if ln and not ln.startswith("#")]
+    data = np.array([[float(x) for x in r.split("\t")] for r in rows],
+                    dtype=float).reshape(len(rows), len(hdr))
+    return hdr, data
+
+
+def bigtsv_violations(scratch, n=25000):
+    """A measurement with tens of thousands of events (any row-wise
+    chunking of the exporter is crossed several times) under selections
+    that are empty in whole stretches."""
+    import dclab
+    vs = []
+    rs = np.random.RandomState(12)
+    a = np.round(rs.uniform(10, 500, n), 3)
+    d = np.round(rs.uniform(0.001, 0.2, n), 5)
+    a[[5, 12000, n - 1]] = np.nan
+    ds = dclab.new_dataset({"area_um": a, "deform": d})
+    p = scratch / f"c02_big_{os.getpid()}.tsv"
+    idx = np.arange(n)
+    sels = {"second-half": idx >= 15000, "every-third": idx % 3 == 0,
+            "first-100": idx < 100, "all-but-first": idx > 0,
+            "last-only": idx == n - 1}
+    for name, m in sels.items():
+        for filtered in (True, False):
+            case = {"mode": "bigtsv", "n": n, "selection": name,
+                    "filtered": filtered}
+            ds.filter.manual[:] = m
+            ds.apply_filter()
+            sel = np.flatnonzero(m) if filtered else idx
+            try:
+                ds.export.tsv(p, features=["area_um", "deform"],
+                              filtered=filtered, override=True)
+                hdr, got = read_tsv(p)
+                ok = sorted(hdr) == ["area_um", "deform"] and \
+                    got.shape[0] == len(sel)
+                if ok:
+                    for j, f in enumerate(hdr):
+                        exp = (a if f == "area_um" else d)[sel]
+                        ok &= bool(np.allclose(got[:, j], exp, rtol=1e-10,
+                                               atol=0, equal_nan=True))
+                if not ok:
+                    vs.append(violation(
+                        "dclab.rtdc_dataset.export:Export.tsv",
+                        "wrong-values", case,
+                        f"{n} events, selection {name} ({len(sel)} events, "
+                        f"filtered={filtered}): file has {got.shape[0]} "
+                        f"rows / values differ",
+                        {"kind": "big", "feat": "rows", "empty": False}))
+            except Exception as e:
+                vs.append(violation(
+                    "dclab.rtdc_dataset.export:Export.tsv", "exception", case,
+                    f"{type(e).__name__}: {e}",
+                    {"kind": "big", "exc": type(e).__name__,
+                     "empty": False}))
+    if p.exists():
+        p.unlink()
+    return vs
+
+
+def _bigtsv_case(args):
+    scratch, = args
+    vs = bigtsv_violations(scratch)
+    return {"exports": 10, "nontrivial": 8}, vs
 
 
 def _tdms_case(args):
@@ -533,6 +605,7 @@ def run(ctx):
     names = ["fmt-tdms_fl-image_2016.zip"] + (
         [] if ctx.quick else ["fmt-tdms_minimal_2016.zip"])
     res += par.pmap(_tdms_case, [(nm, scratch) for nm in names])
+    res += par.pmap(_bigtsv_case, [(scratch,)])
     viols = []
     ex = nt = 0
     for st, vs in res:
@@ -556,6 +629,9 @@ def run(ctx):
 
 
 def replay(case, ctx):
+    if case.get("mode") == "bigtsv":
+        return [v for v in bigtsv_violations(ctx.scratch)
+                if v["case"] == case]
     if case.get("mode") == "tdms":
         _, vs = _tdms_case((case["name"], ctx.scratch))
         return vs
